@@ -35,3 +35,7 @@ claim("C15",
       "Each event kind with a fully symbolic payload is sent through the real rules validator inside a valid document; z3 shows the next receiver gets exactly that event (same method, arguments, order), except the documented rewrites (nil big numbers -> null, NaN -> NaN event of the same kind).",
       "Bounds: one symbolic event per document position (list element), arrays/strings <= 3 bytes, big.Int <= 2 words; *big.Float/*apd.Decimal compared by pointer identity.",
       "DESIGN.md §5 C15")
+claim("C14",
+      "Each configured limit is an unconstrained 64-bit solver variable; document templates of known usage (depth, object count, array bytes incl. chunk sums, markers, encoded CBE size) run through the real validator / CBE decoder and z3 shows rejected <=> usage > limit for every limit value.",
+      "Usage computed by construction of the template. MaxArraySizeBytes=0 (unlimited) excluded; identifier length limit is decided in C13's identifier entry; CTE decoder size check is a one-line wrapper outside the encoded code. Markers are additionally charged against MaxLocalReferenceCount (pinned by the suite): exact verdict asserted when that limit does not bind.",
+      "DESIGN.md §5 C14")
